@@ -57,6 +57,12 @@ PairLayers ==
                  { [P |-> <<<<Sp(s1, 4), B1>>, <<Sp(s2, 4), GoBytes(<<2>>)>>>>, U |-> <<>>],
                    [P |-> <<>>, U |-> <<<<Sp(s1, 4), B1>>, <<Sp(s2, 4), GoBytes(<<2>>)>>>>] }
                : s1 \in PairSpellings, s2 \in PairSpellings }
+  \* ... also for negative labels (-1, -70000)
+  \cup UNION { IF s1 = s2 \/ s1 \notin SignedIntTypes \/ s2 \notin SignedIntTypes THEN {} ELSE
+                 { [P |-> <<<<GoNeg(s1, 0), B1>>, <<GoNeg(s2, 0), GoBytes(<<2>>)>>>>, U |-> <<>>],
+                   [P |-> <<>>, U |-> <<<<GoNeg(s1, 0), B1>>, <<GoNeg(s2, 0), GoBytes(<<2>>)>>>>] }
+                 \cup (IF {s1, s2} \subseteq {"int", "int32", "int64"} THEN { [P |-> <<>>, U |-> <<<<GoNeg(s1, 69999), B1>>, <<GoNeg(s2, 69999), B1>>>>] } ELSE {})
+               : s1 \in PairSpellings, s2 \in PairSpellings }
   \cup { [P |-> <<<<Sp("int64", 2), [t |-> "arr", xs |-> <<GoStr(<<120>>)>>]>>, <<GoStr(<<120>>), B1>>>>, U |-> <<>>],
          [P |-> <<<<Sp("int64", 2), [t |-> "arr", xs |-> <<GoStr(<<121>>)>>]>>, <<GoStr(<<120>>), B1>>>>, U |-> <<>>],
          [P |-> <<<<Sp("int64", 2), [t |-> "arr", xs |-> <<B1>>]>>, <<Sp("int64", 1), AlgV>>>>, U |-> <<>>],
